@@ -180,7 +180,10 @@ class AliasProgram:
             T.add(f"(set! s{j} {X})")
         elif kind == "PR":
             self.pre.append(f"(define pp{j}@@ (make-parameter #f))")
-            T.add(f"(parameterize ([pp{j}@@ {X}])", ")")
+            # the value is computed first: Steel's parameterize evaluates the value expression inside the
+            # before-thunk of a dynamic-wind, i.e. again on every re-entry of its extent (not this property's concern)
+            T.add(f"(let ([t{j} {X}])", ")")
+            T.add(f"(parameterize ([pp{j}@@ t{j}])", ")")
         elif kind == "K":
             self.pre.append(f"(define pk{j}@@ #f)")
             T.add(f"(let ([x{j} {X}])", ")")
@@ -573,18 +576,18 @@ def selftest(r, cases, work):
 PLAN = {
     # (cfg, constant overrides); KEEP* are per-mille of the choices kept by the seeded thinning
     "quick": [
-        ("loop", {}),
-        ("kinds", {"KEEP1": 200}),
-        ("pairs", {"KEEP2": 70}),
-        ("threads", {"KEEP1": 200, "KEEP2": 100, "KEEPR": 30}),
-        ("deep", {"KEEP1": 60, "KEEP2": 28, "KEEPR": 12}),
+        ("loop", {"LOOPEVERY": "{1, 33}"}),
+        ("kinds", {"KEEP1": 160}),
+        ("pairs", {"KEEP2": 60}),
+        ("threads", {"KEEP1": 250, "KEEP2": 120, "KEEPR": 45}),
+        ("deep", {"KEEP1": 50, "KEEP2": 22, "KEEPR": 10}),
     ],
     "thorough": [
         ("loop", {"LOOPN": "{5, 40, 70}"}),
-        ("kinds", {"KEEP1": 1000}),                      # exhaustive
-        ("pairs", {"KEEP2": 300}),
+        ("kinds", {"KEEP1": 550}),       # KEEP1 = 1000 is the exhaustive product (2.0e5 programs)
+        ("pairs", {"KEEP2": 280}),       # KEEP2 = 1000: 6e5 programs
         ("threads", {"KEEP1": 300, "KEEP2": 150, "KEEPR": 60}),
-        ("deep", {"KEEP1": 80, "KEEP2": 35, "KEEPR": 15}),
+        ("deep", {"KEEP1": 60, "KEEP2": 28, "KEEPR": 12}),
     ],
 }
 MAIN_ENVS = ["jit", "nojit"]
